@@ -507,6 +507,7 @@ def check_C11(ctx):
     exprs += [gen.rexpr(rng, rng.randint(5, 20), [2, 3], p_const=0.25) for _ in range(sizes(tier, 250, 6000))]
     for L in sizes(tier, [8, 25], [8, 25, 60, 120]):
         exprs += gen.chains(rng, [2, 3], L)
+    exprs += gen.repairable_singular(rng, [2, 3], sizes(tier, 80, 1000))
     pre = ['SYNFWD 2 %s' % sx.to_sx(e) for e in exprs[:sizes(tier, 120, 1500)] if sx.size(e) <= 9]
     for s in core.run_model(pre):
         try:
@@ -1083,6 +1084,8 @@ def check_C18(ctx):
         rng.shuffle(q)
         if len(q) > 1 and rng.random() < 0.7:
             q.pop()
+            if len(q) > 1 and rng.random() < 0.5:
+                q.pop()        # two or more coordinates missing: WHICH one is reported must not depend on a set's order
         qs = sx.point_sx(q)
         lines += ['EVAL %s %s' % (qs, es), 'REV %s %s' % (qs, es), 'DIFFAT %s %s' % (qs, es), 'DEARLYALL %s %s' % (qs, es),
                   'DEARLYAT %d %s %s' % (v, qs, es), 'PEARLY %d %s %s' % (v, qs, es), 'FWD %d %s %s' % (v, qs, es)]
